@@ -33,6 +33,7 @@ func checkC19(c *Ctx) {
 	c19Recheck(c, rtP, "getKey", []string{"labelMap", "labels"}, "mutex")
 	c19Recheck(c, rtP, "(*Runtime).LoadBuiltin", []string{"importsByBuild", "imports"}, "lock")
 
+	c19AtomicRMW(c)
 	c19Globals(c)
 	c19Caches(c)
 	c19FreshContext(c)
@@ -198,6 +199,9 @@ func c19GuardedFields(c *Ctx, pkgRel, typeName string, fields []string, mutexOf 
 					s := info.Selections[sel]
 					if s == nil || s.Kind() != types.FieldVal || !strings.HasSuffix(typeKey(s.Recv()), pkgRel+"."+typeName) {
 						return true
+					}
+					if isConcurrencySafe(s.Obj().Type()) {
+						return true // an atomic/sync field synchronises itself (see atomic.no-split-rmw)
 					}
 					n++
 					if li == nil {
@@ -652,4 +656,59 @@ func c19LooksUp(info *types.Info, n ast.Node, name string) bool {
 		return true
 	})
 	return found
+}
+
+// c19AtomicRMW: a value allocated from an atomic counter must come from the
+// read-modify-write operation itself (x := a.Add(1)), not from a separate
+// Load after the Add: between the two another goroutine can Add again and both
+// callers observe the same value.
+func c19AtomicRMW(c *Ctx) {
+	n := 0
+	for _, pr := range []string{rtP, adtP, "cue"} {
+		for _, f := range c.funcs(c.pkg(pr)) {
+			info := f.Info()
+			adds := map[string]*ast.CallExpr{}
+			loads := map[string]*ast.CallExpr{}
+			ast.Inspect(f.Body, func(x ast.Node) bool {
+				call, ok := x.(*ast.CallExpr)
+				if !ok {
+					return true
+				}
+				nm := calleeName(info, call)
+				if !strings.HasPrefix(nm, "sync/atomic.") {
+					return true
+				}
+				sel, ok := ast.Unparen(call.Fun).(*ast.SelectorExpr)
+				if !ok {
+					return true
+				}
+				key := exprString(sel.X)
+				switch sel.Sel.Name {
+				case "Add", "Swap", "CompareAndSwap":
+					adds[key] = call
+				case "Load":
+					loads[key] = call
+				}
+				return true
+			})
+			for key, add := range adds {
+				ld, both := loads[key]
+				if !both {
+					continue
+				}
+				// the Add result is discarded and the Load result is used afterwards
+				discarded := false
+				ast.Inspect(f.Body, func(x ast.Node) bool {
+					if es, ok := x.(*ast.ExprStmt); ok && es.X == ast.Expr(add) {
+						discarded = true
+					}
+					return true
+				})
+				n++
+				c.check("atomic.no-split-rmw", f.Name+"/"+key, add.Pos(), !(discarded && ld.Pos() > add.Pos()),
+					"the value taken from the atomic "+key+" must be the result of the Add itself; an Add whose result is dropped followed by a separate Load lets two goroutines obtain the same value")
+			}
+		}
+	}
+	c.note("atomic read-modify-write pairs examined: %d", n)
 }
